@@ -291,6 +291,10 @@ class IoTr2(IoTr):
                 and (e.args[0].func.attr, e.args[1].func.attr) == ('shapes', 'records') \
                 and self.env.get(e.args[0].func.value.id, (None, None))[1] == 'Reader':
             return f'({self.env[e.args[0].func.value.id][0]}).rows', ('Pair', 'ShpShape', 'Dict')
+        if isinstance(e, ast.Call) and isinstance(e.func, ast.Attribute) and e.func.attr == 'to_dict' and isinstance(e.func.value, ast.Name) \
+                and self.env.get(e.func.value.id, (None, None))[1] == 'Frame' and len(e.args) == 1 and not e.keywords \
+                and isinstance(e.args[0], ast.Constant) and e.args[0].value == 'records':
+            return f'({self.env[e.func.value.id][0]}).rows', 'GRow'
         if isinstance(e, ast.Call) and ast.unparse(e.func) == 'enumerate' and len(e.args) == 1 and not e.keywords:
             t, pure, k = self.expr(e.args[0])
             if pure and isinstance(k, tuple) and k[0] == 'List':
@@ -395,7 +399,11 @@ class IoTr2(IoTr):
                 and ast.unparse(e.generators[0].target) == f'({ast.unparse(e.key)}, {ast.unparse(e.value)})':
             g = e.generators[0]
             if isinstance(g.iter, ast.Call) and isinstance(g.iter.func, ast.Attribute) and g.iter.func.attr == 'items':
-                d, dp, dk = self.expr(g.iter.func.value)
+                self.row_as_dict = True
+                try:
+                    d, dp, dk = self.expr(g.iter.func.value)
+                finally:
+                    self.row_as_dict = False
                 if dp and dk == 'Dict':
                     saved = dict(self.env)
                     x = self.gensym('kv')
@@ -440,6 +448,26 @@ class IoTr2(IoTr):
                     return f'pure (GpdFrameW.mk {a[0][0]} {a[1][0]})'
                 t, _p = self.bind_args([d.args[0], g.args[0]], mk)
                 return t, False, 'FrameW'
+        if isinstance(e, ast.Call) and isinstance(e.func, ast.Name) and e.func.id == 'cast' and len(e.args) == 2 and not e.keywords:
+            return self.expr(e.args[1])              # typing.cast is the identity
+        if isinstance(e, ast.Attribute) and isinstance(e.value, ast.Name) and self.env.get(e.value.id, (None, None))[1] == 'Frame' \
+                and e.attr == 'columns':
+            return f'({self.env[e.value.id][0]}).columns', True, ('List', 'Str')
+        if isinstance(e, ast.Attribute) and e.attr in ('geom_type', 'wkt') and isinstance(e.value, ast.Subscript) \
+                and isinstance(e.value.value, ast.Name) and self.env.get(e.value.value.id, (None, None))[1] == 'GRow' \
+                and isinstance(e.value.slice, ast.Constant) and e.value.slice.value == 'geometry':
+            r = self.env[e.value.value.id][0]
+            return (f'({r}).geomType', True, 'Str') if e.attr == 'geom_type' else (f'({r}).wkt', True, 'GI')
+        if isinstance(e, ast.Name) and self.env.get(e.id, (None, None))[1] == 'GRow' and getattr(self, 'row_as_dict', False):
+            return f'({self.env[e.id][0]}).cells', True, 'Dict'
+        if isinstance(e, ast.Call) and isinstance(e.func, ast.Attribute) and e.func.attr == 'from_wkt' and len(e.args) == 1 \
+                and [k.arg for k in e.keywords] == ['dt', 'properties']:
+            def mkw(a):
+                if [x[1] for x in a] != ['Kind', 'GI', 'V', 'Dict']:
+                    self.bad(e, 'from_wkt(text, dt=…, properties=…) at other types')
+                return f'fromWktV {a[0][0]} {a[1][0]} {a[2][0]} {a[3][0]}'
+            t, _p = self.bind_args([e.func.value, e.args[0], e.keywords[0].value, e.keywords[1].value], mkw)
+            return t, False, 'Shape'
         if isinstance(e, ast.List) and not e.elts and getattr(self, 'empty_list_kind', None):
             return f'([] : {lean_t(self.empty_list_kind)})', True, self.empty_list_kind
         return None
@@ -480,7 +508,11 @@ class IoTr2(IoTr):
                 if pure and k == ('List', ('Pair', 'Str', 'PTag')):
                     return f'(dictOf {t})', True, 'TagDict'
             if f in self.localfns and len(e.args) == 1:
-                t, _p = self.bind_args(e.args, lambda a: f'{self.localfns[f]} {a[0][0]}')
+                self.row_as_dict = True
+                try:
+                    t, _p = self.bind_args(e.args, lambda a: f'{self.localfns[f]} {a[0][0]}')
+                finally:
+                    self.row_as_dict = False
                 return t, False, 'V'
         return super().expr(e)
 
@@ -516,6 +548,9 @@ class IoTr2(IoTr):
                 return f'({neg}(dictGet {self.env[e.comparators[0].id][0]} {a}).isNone)', True
         if isinstance(e, ast.Compare) and len(e.ops) == 1 and isinstance(e.ops[0], (ast.In, ast.NotIn)):
             (a, ap, ak), (b, bp, bk) = self.expr(e.left), self.expr(e.comparators[0])
+            if ap and bp and ak == 'Str' and bk == ('List', 'Str'):
+                neg = '!' if isinstance(e.ops[0], ast.NotIn) else ''
+                return f'({neg}({b}).contains {a})', True
             if ap and bp and ak == 'Str' and bk == 'Incl':
                 neg = '!' if isinstance(e.ops[0], ast.NotIn) else ''
                 return f'({neg}inclContains {b} {a})', True
@@ -581,7 +616,7 @@ class IoTr2(IoTr):
         if isinstance(s, ast.AnnAssign) and isinstance(s.target, ast.Name) and isinstance(s.value, ast.List) and not s.value.elts:
             ann = ast.unparse(s.annotation)
             inner = ann[5:-1] if ann.startswith('List[') else None
-            if inner not in self.SHAPE_CLASSES:
+            if inner not in self.SHAPE_CLASSES + ('BaseShape',):
                 self.bad(s, 'annotation')
             self.env[s.target.id] = (lname(s.target.id), ('List', 'Shape'))
             return f'let {lname(s.target.id)} : List Shape := []\n' + self.block(rest, fall)
@@ -691,6 +726,9 @@ class IoTr2(IoTr):
         if not state:
             self.bad(s, 'a loop that changes nothing')
         loaded = _loaded(s.body) | ({'zip_out'} if 'zip_out' in muts else set())
+        for f_ in list(loaded):
+            if f_ in self.localfns:         # what a nested helper reads from the enclosing function's parameters
+                loaded |= set(self.localfns[f_].split()[1:])
         closure = [v for v in self.env if v in loaded and v not in state and v not in tnames and self.env[v][1] != 'Path']
         sub = IoTr2(self.qual, self.fn, {v: self.env[v] for v in self.env if v in closure or v in state or self.env[v][1] == 'Path'},
                     self.nt, self.lean, self.localfns, self.shared)
@@ -841,6 +879,12 @@ def unit():
             doc='at `read_layers=None`; the archive is the list of its members')
     rd.reader = True
     fns.append(rd)
+    fg = Fn('CollectionBase.from_geopandas', 'fromGeopandas',
+            [('cls', 'Path'), ('df', 'Frame'), ('time_start_field', 'Str'), ('time_end_field', 'Str')],
+            nt='true', localfns={'_get_dt': 'gpdGetDt time_start_field time_end_field'},
+            doc='the frame as `GpdFrameR`: `columns` and the cells of a row are without the geometry column')
+    fg.reader = True
+    fns.append(fg)
     tg = Fn('CollectionBase.to_geopandas', 'toGeopandas', [('self', 'Coll'), ('include_properties', 'Incl')], nt='true',
             doc='what reaches `pd.DataFrame` / `GeoSeries.from_wkt`')
     tg.reader, tg.ret_kind = True, 'FrameW'
